@@ -45,6 +45,14 @@ record with its open connection), so no soft invalidation is generated for it.  
 *checkin* listener is not among the faults the property lists and is not injected.  Recycle
 *age* is exercised but not judged (the property speaks of invalidation only).
 
+Limit: "close() interrupted by a BaseException inside the error handling of an earlier
+fault" (two faults in one call) is a family of its own - none of the pool's multi-step error
+handlers (invalidate + pool-wide invalidate + checkin) is safe against it.  Two members are
+kept as directed cases and are recorded as open known findings (gc-path reset failure, and
+failing checkout on SingletonThreadPool); the other members that the pair enumeration of the
+thorough tier produces are executed and counted (``pairs_interrupted_close_*``) but not
+judged.  Every other pair of faults is judged.
+
 Mechanisms are computed from the witness: <symptom>:<phase of the fault>:<kind class>, for
 a leaked detached connection the fault that hit that very connection.  ``directed_cases``
 replays on every run (shard 0) the witnesses of the defects this check found (five repaired
@@ -61,7 +69,7 @@ META = {
     "level": "fault_enumeration",
     "technique": "count-then-enumerate fault injection at every DBAPI call and pool listener invocation of bounded checkout histories on a programmable fake DBAPI, ledger conservation + hand-out identity oracle, virtual clock",
     "level_text": "For every sampled (pool configuration, history) the fault-free run counts the fault points; then the history is re-run once per point x fault kind (quick and thorough) and for sampled pairs of points (thorough). Single-threaded and deterministic: a verdict is about exactly the enumerated fault positions.",
-    "level_note": "The DBAPI is a fake: what is exercised is the pool / engine code and each dialect's own is_disconnect classification, not a driver. Histories are bounded (<=4 checkouts, <=3 holders) and sampled, configurations sampled; thread interleavings are C25's subject. Recycle age is not judged. engine.dispose() in the middle of a history is not generated.",
+    "level_note": "The DBAPI is a fake: what is exercised is the pool / engine code and each dialect's own is_disconnect classification, not a driver. Histories are bounded (<=4 checkouts, <=3 holders) and sampled, configurations sampled; thread interleavings are C25's subject. Recycle age is not judged. engine.dispose() in the middle of a history is not generated. Pairs whose second fault is a BaseException out of a close() provoked by the first fault are run but not judged (two representatives are directed cases / open known findings).",
     "design_ref": "DESIGN.md section 4, C26",
     "rule": "case = (configuration, history, fault plan); non-trivial = the armed fault really fired; distinct by (config, history, plan)",
     "shards": {"quick": 8, "thorough": 16},
@@ -164,6 +172,7 @@ class Run:
         self.expected_inval = 0
         self.preping_faults = 0
         self.fault_ops = {}
+        self.fault_batch = {}
         self.inv_detached = set()
         self.closing_txn = False
 
@@ -192,6 +201,7 @@ class Run:
         """Faults fired during the op just executed: which of them oblige a pool-wide invalidation."""
         for k, desc, kind in rig.fired[self.seen_fired:]:
             pool_wide = False
+            self.fault_batch[k] = self.seen_fired      # faults absorbed together fired in the same op
             self.fault_ops[k] = (opkind if not (opkind in ("ci", "drop") and self.closing_txn) else "ci-txn", how)
             if opkind == "co" and desc in ("dbapi:ping", "dbapi:cursor", "dbapi:execute"):
                 self.preping_faults += 1
@@ -342,6 +352,7 @@ class Run:
         except BaseException as e:  # noqa: BLE001  faults propagate to the holder by design
             err = e
         self.trace.append((op, type(err).__name__ if err is not None else "ok"))
+        failed = err is not None
         if kind == "ci" and err is not None:
             # release = close, drop the reference, collect: a close() that raised leaves the
             # clean-up to the finalizer of the (cyclic) Connection / fairy garbage
@@ -350,8 +361,10 @@ class Run:
             gc.collect()
         if kind != "co" or err is not None:
             self.absorb_faults(rig, kind, how)
-        # transparent reconnect of a Connection = a hand-out too
-        if kind in ("use", "inv") and op[1] in holders:
+        # transparent reconnect of a Connection = a hand-out too.  Only after an op that
+        # succeeded: if it raised, whatever the holder is left with was acquired before the
+        # failure (e.g. reconnect, then disconnect + interrupted close in the same call)
+        if kind in ("use", "inv") and op[1] in holders and not failed:
             how, obj, fc = holders[op[1]]
             try:
                 now = self.current_fc(how, obj) if how == "conn" else fc
@@ -439,20 +452,45 @@ def multi_fault_phase(run, mech):
         ph = fault_phase_of(run, f)
         head, _, kc = ph.rpartition(":")
         parts.append(head + ":" + ("exception" if kc in ("error", "disconnect", "RuntimeError") else kc))
-    if mech.startswith("checkedout-nonzero") and len(parts) == 2 and parts[0].startswith("gc-reset:") \
-            and parts[1] == "close:baseexception":
-        # one defect whatever made the reset fail: the invalidation that follows a failed
-        # reset is itself interrupted while closing
-        return "gc-reset-then-close:baseexception"
+    if len(parts) == 2 and parts[1] == "close:baseexception" \
+            and run.fault_batch.get(run.fired[0][0]) == run.fault_batch.get(run.fired[1][0]):
+        # family "close() interrupted inside the error handling of an earlier fault": the
+        # invalidation that the first fault provokes is not exception safe, the record is not
+        # checked in.  One mechanism per place where the first fault hit, whatever the symptom
+        # (checkedout() != 0, AssertionPool 'already checked out', SingletonThreadPool handing
+        # the dead thread-local fairy out again ...)
+        first = parts[0].split(":")[0]
+        if first in ("gc-reset", "reset"):
+            return "MECH=checkedout-nonzero-at-quiescence:gc-reset-then-close:baseexception"
+        if run.fault_ops.get(run.fired[0][0], ("?",))[0] == "co":
+            return "MECH=closed-connection-handed-out:checkout-listener-then-close:baseexception"
     return "+".join(parts)
+
+
+def interrupted_close_family(run):
+    """Two faults in the same op, the second a BaseException out of DBAPI close(): the close()
+    belongs to the error handling of the first fault."""
+    f = run.fired
+    return (len(f) == 2 and f[1][1] == "dbapi:close" and f[1][2] in ("interrupt", "exit")
+            and run.fault_batch.get(f[0][0]) == run.fault_batch.get(f[1][0]))
 
 
 def judge_and_report(ctx, run, tag):
     fired = run.fired
+    if tag == "pair" and interrupted_close_family(run):
+        # Limit (see module docstring): this family is represented by two directed cases
+        # (recorded as open known findings); its other members are run, counted, not judged.
+        ctx.count("pairs_interrupted_close_not_judged")
+        if run.viol:
+            ctx.count("pairs_interrupted_close_with_symptom")
+            ctx.seen("interrupted_close_symptoms", run.viol[0][0] + " after " + fault_phase_of(run, fired[0]))
+        run.viol = []
     viol = sorted(run.viol, key=lambda v: 0 if v[0].startswith("detached-") else 1 if v[0].startswith("connection-open") else 2)
     for mech, text in viol[:1]:
         ph = fault_phase(run) if len(fired) < 2 else multi_fault_phase(run, mech)
-        if mech.endswith(":DETACHED"):
+        if ph.startswith("MECH="):
+            mech = ph[5:]
+        elif mech.endswith(":DETACHED"):
             mech = mech.replace(":DETACHED", ":reset-failed" if ph.startswith(("reset", "gc-reset")) else ":" + ph)
         elif mech.startswith("detached-"):
             pass
@@ -543,6 +581,12 @@ def directed_cases(ctx):
     # resulting invalidation is interrupted
     cases.append(({**base, "pool": "queue10"}, [("co", 0, "raw"), ("use", 0), ("drop", 0), ("co", 1, "raw"), ("ci", 1)],
                   [("dbapi:rollback", 0, "error"), ("next-point", 0, "interrupt")], None, None))
+    # double fault on SingletonThreadPool: a checkout listener fails on a pooled connection, then
+    # close() inside the resulting invalidation is interrupted; the thread-local fairy stays
+    # registered until a cyclic gc run and is handed out again with the half-closed connection
+    cases.append(({**base, "pool": "singleton", "listeners": ("checkout",)},
+                  [("co", 0, "raw"), ("ci", 0), ("co", 0, "raw"), ("ci", 0), ("co", 0, "raw"), ("ci", 0)],
+                  [("listener:checkout", 1, "RuntimeError"), ("next-point", 0, "interrupt")], None, None))
     for config, history, site, nth, kind in cases:
         dry = Run(ctx, config, history, {}, judge=True).execute()
         ctx.count("dry_runs")
